@@ -515,9 +515,11 @@ class MolGrid(Grid):
         natoms = len(atcoords)
         # List of int is created, so that indexing is possible in the for-loop.
         if isinstance(d_sectors, (int, np.integer)):
-            d_sectors = [d_sectors] * natoms
+            d_sectors = [[d_sectors] * (len(r_sec) + 1) for r_sec in r_sectors]
         # If s_sectors given d_sectors is set to [None] for all atoms.
         if s_sectors is not None:
+            if isinstance(s_sectors, (int, np.integer)):
+                s_sectors = [[s_sectors] * (len(r_sec) + 1) for r_sec in r_sectors]
             d_sectors = [None] * natoms
         # else s_sectors is set to [None] for all atoms.
         else:
